@@ -437,7 +437,14 @@ def run(ctx, R, R2):
                 d = [x for x in p.decisions if x[2][0] == 'bin' and x[2][1] in ('Ge', 'Lt') and eq(rlin(x[2][3]), NT)]
                 if not d:
                     other = [x for x in p.decisions if x[2][0] == 'bin' and x[2][1] in ('Eq', 'Ne', 'Ge', 'Lt', 'Gt', 'Le') and byte_index(x[2][2]) is not None]
-                    if other:
+                    # `match entry { 255 => None, i => Some(i) }`: a switch on the entry itself against fixed values
+                    sw = [x for x in p.decisions if x[2][0] in ('index', 'cast') and byte_index(x[2]) is not None
+                          and (isinstance(x[3], int) or (isinstance(x[3], tuple) and x[3] and x[3][0] == 'not'))]
+                    if sw and not other:
+                        ctx.violation(R2, 'index-path:absent-test', 'an index entry means "no transition" exactly when it is >= ntrans (the writer stores forward positions 0..ntrans-1, 255 only by default); '
+                                      'found the entry matched against the fixed value(s) %s and never compared with ntrans: with 256 transitions every byte value is a real transition number'
+                                      % (sw[-1][3] if isinstance(sw[-1][3], int) else list(sw[-1][3][1])), fn=f)
+                    elif other:
                         ctx.violation(R2, 'index-path:absent-test', 'an index entry means "no transition" exactly when it is >= ntrans (the writer stores forward positions 0..ntrans-1, 255 only by default); '
                                       'found the test %s: with 256 transitions the entry 255 is a real transition' % fmt(other[-1][2])[:80], fn=f)
                     else:
